@@ -32,7 +32,7 @@ class ReproCheck:
         return 1200 if tier == "quick" else 7200
 
     def shards(self, tier, seed):
-        n = 32 if tier == "quick" else 600
+        n = 48 if tier == "quick" else 800
         k = 16
         per = -(-n // k)
         return [{"seed": seed, "start": i * per, "count": per} for i in range(k)]
@@ -56,9 +56,15 @@ class ReproCheck:
             over["flags"]["resolve_conditionals_at_submission"] = False
         elif src == "runtime_variance":
             over.update(variances=[20, 50], release_policies=["fixed"])
-        prof = "clockwork" if idx % 8 == 7 else "greedy"
-        w = worldgen.gen_world(seed, idx, prof, **(over if prof == "greedy" else {}))
-        w["meta"]["source"] = src if prof == "greedy" else "clockwork"
+        prof = "clockwork" if idx % 4 == 3 else "greedy"
+        cover = {}
+        if prof == "clockwork":
+            # half of the model-serving worlds: several models whose requests arrive together with equal deadlines (ties
+            # between models), under both goals
+            if idx % 8 == 7:
+                cover = {"tied": True, "flags": {"clockwork_goal": ["clockwork", "least_slack"][(idx // 8) % 2]}}
+        w = worldgen.gen_world(seed, idx, prof, **(over if prof == "greedy" else cover))
+        w["meta"]["source"] = src if prof == "greedy" else ("clockwork_tied" if cover else "clockwork")
         return w
 
     def run_shard(self, spec, workdir):
@@ -123,7 +129,7 @@ class ReproCheck:
         inconclusive = []
         if len(compared) < (12 if tier == "quick" else 300):
             inconclusive.append(f"only {len(compared)} process pairs compared; errors: {errors[:2]}")
-        for s in ("deadline_variance", "poisson", "gamma", "conditional", "runtime_variance"):
+        for s in ("deadline_variance", "poisson", "gamma", "conditional", "runtime_variance", "clockwork", "clockwork_tied"):
             if per_source.get(s, 0) < 3:
                 inconclusive.append(f"randomness source {s} in {per_source.get(s, 0)} pairs")
         if errors:
